@@ -98,9 +98,12 @@ def nodeTest (env : Env) (a : Axis) (t : NodeTest) (k : Key) : Except XPErr Bool
        | some uri => .ok (kindOf d k == principal a && (expandedName d k).map (·.2) == some uri))
   | .name q =>
       (match q.pre with
-       | some p => (match bindingOf env (some p) with
-           | none => .error .nons
-           | some uri => .ok (kindOf d k == principal a && expandedName d k == some (q.loc, uri)))
+       | some p =>
+           -- the prefix is looked up only for nodes of the principal node type (as the library does)
+           if kindOf d k != principal a then .ok false else
+           (match bindingOf env (some p) with
+            | none => .error .nons
+            | some uri => .ok (expandedName d k == some (q.loc, uri)))
        | none =>
            -- no prefix: null namespace URI (the caller's default element namespace, if bound, applies
            -- to element name tests only — library extension kept from `Context::add_ns(None, _)`)
@@ -114,7 +117,7 @@ def normalize (d : XDoc) (ks : List Key) : List Key := (allKeys d).filter (fun k
 
 def toStr (d : XDoc) : Value → Str
   | .bool b => if b then "true".toList else "false".toList
-  | .num x => fmtNum x
+  | .num x => if d.negZeroQuirk && x == zeroBits true then "-0".toList else fmtNum x
   | .str s => s
   | .nodes ks => match ks with | k :: _ => strVal d k | [] => []
 
@@ -256,7 +259,7 @@ def applyFunc (env : Env) (c : Ctx) (name : String) (args : List Value) : Except
   | "last" => .ok (.num (ofNat c.size))
   | "position" => .ok (.num (ofNat c.pos))
   | "count" => (match args with | [.nodes ks] => .ok (.num (ofNat ks.length)) | _ => .error .type)
-  | "id" => .error .unsupported
+  | "id" => if d.hasDoctype then .error .unsupported else .ok (.nodes [])
   | "local-name" => (match nodesArg c args with
       | .ok (k :: _) => .ok (.str (((expandedName d k).map (·.1)).getD []))
       | .ok [] => .ok (.str [])
